@@ -59,6 +59,11 @@ def wf : Src → Prop
 instance (s : Src) : Decidable (wf s) := by
   cases s <;> simp only [wf] <;> exact inferInstance
 
+/-- the text "7" as the harness would describe it -/
+def seven : StrInfo :=
+  { bytes := [55], blank := false, norm := "7", pInt := some 7, pFloat := none, pFloat32 := none,
+    pBig10 := some 7, hexPrefix := false, pBig16 := none }
+
 theorem i64_range (n : Int) : IntTy.i64.inRange n ↔ -(2 ^ 63) ≤ n ∧ n ≤ 2 ^ 63 - 1 := by
   simp [IntTy.inRange, IntTy.lo, IntTy.hi, IntTy.signed, IntTy.bits]
 
@@ -676,6 +681,11 @@ def float64Post (r : F) : Src → Prop
   | .cplx _ _ mag => r = mag      -- the magnitude: the known finding, not a value-preserving result
   | _ => False
 
+example : finiteSrc (.f64 (.fin 1 1)) ∧ toFloat32 (.f64 (.fin 1 1)) = .ok (.fin 1 1) ∧
+    finiteSrc (.f64 (.fin (2 ^ 128) 0)) ∧ toFloat32 (.f64 (.fin (2 ^ 128) 0)) = .error .overflow ∧
+    toFloat32 (.int .i64 (2 ^ 60 + 2 ^ 36 + 1)) = .ok (.fin (2 ^ 60 + 2 ^ 37) 0) := by
+  refine ⟨by simp [finiteSrc], by decide, by simp [finiteSrc], by decide, by decide⟩
+
 /-- **C17 (float targets, value).** What a successful `ToFloat64` returns: a float is returned
     unchanged (and is not NaN), a bool is 0 or 1, an integer is `toF64Int` (correctly rounded:
     `c17_int_to_f64_nearest`), text is what `ParseFloat` read (not NaN) or 0 for blank text, a
@@ -799,6 +809,10 @@ theorem c17_bigint_sound (sem : StrSem) (s : Src) (n : Int) (h : toBigInt s = .o
   | nilptr => cases h
   | other => cases h
 
+example : toBigInt (.f64 (.fin (-(2 ^ 63)) 0)) = .ok (-(2 ^ 63)) ∧ toBigInt (.f32 (.fin 12 2)) = .ok 3 ∧
+    toBigInt (.f64 (.fin (2 ^ 63) 0)) = .error .notWhole ∧ toBigInt (.f64 (.fin 3 1)) = .error .notWhole ∧
+    toBigInt (.int .u64 (2 ^ 64 - 1)) = .ok (2 ^ 64 - 1) := by decide
+
 /-! ## ToBool -/
 
 /-- **C17 (bool): the documented truthy table** for text (after trimming and lowering). -/
@@ -838,6 +852,10 @@ theorem c17_bool_sound (s : Src) (b : Bool) (h : Coerce.toBool s = .ok b) : bool
   | nilptr => cases h
   | other => cases h
 
+example : Coerce.toBool (.int .i8 (-2)) = .ok true ∧ Coerce.toBool (.f64 (.fin 0 1074)) = .ok false ∧
+    Coerce.toBool (.f32 .ninf) = .ok true ∧ Coerce.toBool (.str { seven with norm := "yes" }) = .ok true ∧
+    Coerce.toBool (.str seven) = .error .format := by decide
+
 /-! ## coercing schemas -/
 
 /-- **C17 (schemas, order).** Coercion is attempted only after the exact type match fails: an
@@ -875,11 +893,6 @@ theorem c17_schema_int_sound (sem : StrSem) (f g : F → List Nat) (ty : IntTy) 
       injection h with h; subst h
       exact ⟨n, rfl, hd, hr, hc⟩
     · cases h
-
-/-- the text "7" as the harness would describe it -/
-def seven : StrInfo :=
-  { bytes := [55], blank := false, norm := "7", pInt := some 7, pFloat := none, pFloat32 := none,
-    pBig10 := some 7, hexPrefix := false, pBig16 := none }
 
 example : Coerce.exact (.int .i8) (.str seven) = none ∧
     parseCoerced (fun _ => []) (fun _ => []) (.int .i8) (.cmp .gte (.i 5)) (.str seven) = .ok (.int 7) ∧
